@@ -790,13 +790,16 @@ impl<'a> PGen<'a> {
                     2 => Entry::X(upper),
                     _ => Entry::Z(upper),
                 },
-                ColRole::Shared => match ch.weighted(&[4, 4, zw]) {
+                // a column that is the input `<b>_out` and the expected value of the bidirectional
+                // `<b>` at once: as an input column it may hold C
+                ColRole::Shared => match ch.weighted(&[4, 4, zw, cw / 2]) {
                     0 => self.num_entry(ch, col.min_bits),
                     1 => {
                         let e = self.expr(ch, cfg.expr.max_depth);
                         Entry::Paren(self.fit(e, col.min_bits))
                     }
-                    _ => Entry::Z(upper),
+                    2 => Entry::Z(upper),
+                    _ => Entry::C(upper),
                 },
             };
             es.push(en);
